@@ -133,16 +133,18 @@ impl Case {
             .enumerate()
             .map(|(i, c)| {
                 let s = format!("call{i}{}", pad(c.call_pad as usize));
-                (s, c.kind)
+                // a oneway call may carry `more` as well (every other one does: `k` has no other
+                // meaning for a oneway call): it is still owed nothing
+                (s, c.kind, c.kind == Kind::Oneway && c.k % 2 == 1)
             })
-            .map(|(s, kind)| {
+            .map(|(s, kind, also_more)| {
                 let call = Call::new(MethodA::Put {
                     key: s.clone(),
                     val: None,
                     tag: std::borrow::Cow::Borrowed("t"),
                 })
                 .set_oneway(kind == Kind::Oneway)
-                .set_more(kind == Kind::More);
+                .set_more(kind == Kind::More || also_more);
                 (s, call)
             })
             .collect()
@@ -452,6 +454,9 @@ fn frame_boundaries(case: &Case) -> Vec<usize> {
 
 pub fn check_case(case: &Case, stats: &mut Stats) -> CaseResult {
     let has_oneway = case.calls.iter().any(|c| c.kind == Kind::Oneway);
+    if case.calls.iter().any(|c| c.kind == Kind::Oneway && c.k % 2 == 1) {
+        stats.class("has-oneway-call-that-also-asks-for-more");
+    }
     let has_more_k = case.calls.iter().any(|c| c.kind == Kind::More && c.k >= 1);
     let all_oneway = case.calls.iter().all(|c| c.kind == Kind::Oneway);
     let bounds = frame_boundaries(case);
